@@ -93,6 +93,10 @@ def strings(rng, n, thorough):
     # chat components travel as this same type and may be much longer
     # (262144 characters in the protocol): no limit of its own
     out += ['a' * 32768, 'q' * 40000, 'é' * 70000, 'z' * 262144]
+    # lengths that are exact multiples of common block sizes (a writer that
+    # hands its payload over in slices shows its last-slice arithmetic here)
+    out += ['b' * (k * 4096) for k in (1, 2, 3, 5, 10, 16, 20)] + \
+        ['é' * (20 * 1024), 'k' * 65536]
     pools = ['abc XYZ', 'éüñ', '€中文', '\U0001F600\U0001F4A9', '\x00\x01\x7f']
     for _ in range(n):
         L = rng.choice((0, 1, 2, 3, 5, 17, 60, 130, 300))
@@ -108,6 +112,11 @@ def byte_arrays(rng, n, maxlen):
     for _ in range(n):
         out.append(bytes(rng.randrange(256)
                          for _ in range(rng.choice((0, 1, 2, 7, 33, 200)))))
+    # exact multiples of common block sizes (sliced hand-over)
+    for L in [k * 4096 for k in (1, 2, 3, 5, 10, 16, 20, 30)] + [65536,
+                                                                 100000]:
+        if L <= maxlen:
+            out.append(rng.randbytes(L))
     return out
 
 
@@ -254,11 +263,11 @@ def run(run):
 
     add('String', T.String, strings(rng, nrand // 4, thorough), rw.string)
     add('VarIntPrefixedByteArray', T.VarIntPrefixedByteArray,
-        byte_arrays(rng, nrand // 4, 20000), rw.varint_bytes)
+        byte_arrays(rng, nrand // 4, 140000), rw.varint_bytes)
     add('ShortPrefixedByteArray', T.ShortPrefixedByteArray,
         byte_arrays(rng, nrand // 4, 20000), rw.short_bytes)
     add('TrailingByteArray', T.TrailingByteArray,
-        byte_arrays(rng, nrand // 8, 20000), bytes, selfdelim=False)
+        byte_arrays(rng, nrand // 8, 140000), bytes, selfdelim=False)
     uuids = ['00000000-0000-0000-0000-000000000000',
              'ffffffff-ffff-ffff-ffff-ffffffffffff',
              '12345678-1234-5678-1234-567812345678']
